@@ -413,6 +413,105 @@ def flat(m, n, depth=0):
         return nm + "(" + ",".join(flat(m, a, depth) for a in args) + ")"
     return n.tag
 
+def local_def(m, kind, uid):
+    """the definition node of a module-local user-defined operator, else None"""
+    if kind != "UserDefinedOpKindRef": return None
+    d = m.ents.get(uid)
+    if d is None or d.find("location/filename").text != m.name or d.find("body") is None: return None
+    return d
+
+def def_params(d):
+    return [p.find("FormalParamNodeRef/UID").text for p in (d.find("params") or [])]
+
+def flatx(m, n, sub=None, depth=0):
+    """like flat, but module-local operators are expanded (parameters replaced by the arguments' text)"""
+    sub = sub or {}
+    if n.tag == "NumeralNode": return n.find("IntValue").text
+    if n.tag == "StringNode": return '"' + n.find("StringValue").text + '"'
+    if n.tag == "LetInNode": return flatx(m, n.find("body")[0], sub, depth)
+    if n.tag == "OpApplNode":
+        kind, uid, nm = m.opname(n)
+        args = m.operands(n)
+        if kind == "FormalParamNodeRef" and uid in sub and not args:
+            return sub[uid]
+        d = local_def(m, kind, uid)
+        if d is not None and depth < 4 and not contains_prime(m, d.find("body")[0]):
+            ps = def_params(d)
+            if len(ps) == len(args):
+                s2 = dict(sub)
+                for pu, a in zip(ps, args): s2[pu] = flatx(m, a, sub, depth)
+                return flatx(m, d.find("body")[0], s2, depth + 1)
+        if not args: return nm
+        return nm + "(" + ",".join(flatx(m, a, sub, depth) for a in args) + ")"
+    return n.tag
+
+def ev3(m, n, hyp, sub=None, depth=0):
+    """three-valued evaluation of a state predicate under hypotheses {term text: string value}: True/False/None"""
+    sub = sub or {}
+    if n.tag == "LetInNode": return ev3(m, n.find("body")[0], hyp, sub, depth)
+    if n.tag != "OpApplNode": return None
+    kind, uid, nm = m.opname(n)
+    args = m.operands(n)
+    if nm in ("$ConjList", "\\land"):
+        vs = [ev3(m, a, hyp, sub, depth) for a in args]
+        if any(v is False for v in vs): return False
+        return True if all(v is True for v in vs) else None
+    if nm in ("$DisjList", "\\lor"):
+        vs = [ev3(m, a, hyp, sub, depth) for a in args]
+        if any(v is True for v in vs): return True
+        return False if all(v is False for v in vs) else None
+    if nm == "\\lnot" and len(args) == 1:
+        v = ev3(m, args[0], hyp, sub, depth)
+        return None if v is None else (not v)
+    if nm == "$IfThenElse" and len(args) == 3:
+        c = ev3(m, args[0], hyp, sub, depth)
+        if c is True: return ev3(m, args[1], hyp, sub, depth)
+        if c is False: return ev3(m, args[2], hyp, sub, depth)
+        a, b = ev3(m, args[1], hyp, sub, depth), ev3(m, args[2], hyp, sub, depth)
+        return a if a == b else None
+    def strval(x):
+        if x.tag == "StringNode": return x.find("StringValue").text
+        return hyp.get(flatx(m, x, sub, depth))
+    if nm in ("=", "/=", "#") and len(args) == 2:
+        a, b = strval(args[0]), strval(args[1])
+        if a is None or b is None: return None
+        return (a == b) if nm == "=" else (a != b)
+    if nm in ("\\in", "\\notin") and len(args) == 2:
+        a = strval(args[0])
+        st = args[1]
+        if a is not None and st.tag == "OpApplNode" and m.opname(st)[2] == "$SetEnumerate":
+            elems = [strval(e) for e in m.operands(st)]
+            if all(e is not None for e in elems):
+                r = a in elems
+                return r if nm == "\\in" else (not r)
+        return None
+    d = local_def(m, kind, uid)
+    if d is not None and depth < 4 and not contains_prime(m, d.find("body")[0]):
+        ps = def_params(d)
+        if len(ps) == len(args):
+            s2 = dict(sub)
+            for pu, a in zip(ps, args): s2[pu] = flatx(m, a, sub, depth)
+            return ev3(m, d.find("body")[0], hyp, s2, depth + 1)
+    return None
+
+def subapps(m, n, sub=None, depth=0):
+    """all operator applications below n, looking through module-local operator definitions; yields (node, sub)"""
+    sub = sub or {}
+    if n.tag == "LetInNode":
+        yield from subapps(m, n.find("body")[0], sub, depth); return
+    if n.tag != "OpApplNode": return
+    yield (n, sub)
+    kind, uid, nm = m.opname(n)
+    args = m.operands(n)
+    for a in args: yield from subapps(m, a, sub, depth)
+    d = local_def(m, kind, uid)
+    if d is not None and depth < 4 and not contains_prime(m, d.find("body")[0]):
+        ps = def_params(d)
+        if len(ps) == len(args):
+            s2 = dict(sub)
+            for pu, a in zip(ps, args): s2[pu] = flatx(m, a, sub, depth)
+            yield from subapps(m, d.find("body")[0], s2, depth + 1)
+
 def lin_over_M(m, n):
     """affine form c + k*M of a threshold expression, or None"""
     if n.tag == "NumeralNode": return (int(n.find("IntValue").text), 0)
@@ -606,19 +705,32 @@ def guard_rules(ctx, rhs, env, guards, action, init, where):
             if req is None:
                 res.fail("TLA-GUARD", spec + "/" + action + "/untabled-view-change", where, "a non-faulty action increases the view but the guard table has no entry for it (new view-changing action: add its lock/quorum requirement)")
                 continue
-            missing = [why for pat, why in req if pat not in allg]
+            # "lock:<state>" entries are decided by evaluation: with the node in that state the action's guard must be
+            # false (whatever helper operators the guard is written with); other entries are patterns of the guard text
+            it = flat(m, idx) if idx is not None else "r"
+            hypkey = '$RcdSelect($FcnApply(rmState,%s),"type")' % it
+            conj = [g for g, pol in guards if pol]
+            def locked(state):
+                return any(ev3(m, g, {hypkey: state}) is False for g in conj)
+            allgx = " && ".join(("" if pol else "NOT ") + flatx(m, g) for g, pol in guards)
+            missing = []
+            for pat, why in req:
+                if pat.startswith("lock:"):
+                    if not locked(pat[5:]): missing.append(why)
+                elif pat not in allg and pat not in allgx:
+                    missing.append(why)
             if not missing: res.ok("TLA-GUARD", "%s %s: view increase carries %s" % (spec, action, "; ".join(w for _, w in req)))
             else: res.fail("TLA-GUARD", spec + "/" + action + "/view-guard", where, "view-increasing action lost its guard: " + "; ".join(missing))
 
 # guards that today's specs put on non-faulty view-increasing actions (confirmed by reading each spec; the two
 # dBFT 2.1 drafts deliberately have no commit lock but a bound on commits / explicit CV stages instead)
-CS = '/=($RcdSelect($FcnApply(rmState,r),"type"),"commitSent")'
+CS = "lock:commitSent"
 LOCKS = {
     ("dbft/dbft.tla", "RMReceiveChangeView"): [(CS, "commit lock type /= commitSent"), ('"ChangeView"', "ChangeView quorum"), ("\\geq(Cardinality(", ">= M quorum")],
-    ("dbft_antiMEV/dbft.tla", "RMReceiveChangeView"): [(CS, "commit lock type /= commitSent"), ('/=($RcdSelect($FcnApply(rmState,r),"type"),"commitAckSent")', "lock type /= commitAckSent"), ('"ChangeView"', "ChangeView quorum")],
+    ("dbft_antiMEV/dbft.tla", "RMReceiveChangeView"): [(CS, "commit lock type /= commitSent"), ("lock:commitAckSent", "lock type /= commitAckSent"), ('"ChangeView"', "ChangeView quorum")],
     ("dbftMultipool/dbftMultipool.tla", "RMSendChangeView"): [("\\lnot(CommitSent(r))", "backup commit lock ~CommitSent(r)"), ('"ChangeView"', "ChangeView quorum")],
     ("dbftMultipool/dbftMultipool.tla", "RMOnChangeView"): [("\\lnot(CommitSent(r))", "commit lock ~CommitSent(r)"), ('"ChangeView"', "ChangeView quorum")],
-    ("dbft2.1_threeStagedCV/dbftCV3.tla", "RMReceiveChangeView"): [('"ChangeView1"', "CV1 quorum"), ('"ChangeView2"', "CV2 quorum"), ('"ChangeView3"', "CV3 quorum"), ('/=($RcdSelect($FcnApply(rmState,r),"type"),"blockAccepted")', "not after acceptance")],
+    ("dbft2.1_threeStagedCV/dbftCV3.tla", "RMReceiveChangeView"): [('"ChangeView1"', "CV1 quorum"), ('"ChangeView2"', "CV2 quorum"), ('"ChangeView3"', "CV3 quorum"), ("lock:blockAccepted", "not after acceptance")],
     ("dbft2.1_centralizedCV/dbftCentralizedCV.tla", "RMSendDoCV1ByLeader"): [('"ChangeView1"', "CV1 quorum"), ("\\geq(Cardinality(", ">= M quorum")],
     ("dbft2.1_centralizedCV/dbftCentralizedCV.tla", "RMSendDoCV2ByLeader"): [('"ChangeView2"', "CV2 quorum"), ("\\geq(Cardinality(", ">= M quorum")],
     ("dbft2.1_centralizedCV/dbftCentralizedCV.tla", "RMReceiveDoCV1FromLeader"): [('"DoChangeView1"', "leader's DoChangeView1")],
